@@ -152,6 +152,12 @@ EXPLORE.update({
            "utility of the returned strategy; exhaustive: no strategy is better; local: no single flip improves; map: arg "
            "max of the documented objective over the query facts. Four defects found this way were repaired (fix: commits).",
 })
+EXPLORE.update({
+    "C33": "Run-time contract on cut/1 and cut/2 of library(cut) through the real pipeline for seeded indexed rule sets "
+           "(indices 1..15, shuffled file order, probabilistic applicability conditions, bound and free call patterns): in "
+           "every world the answers are those of the matching applicable rule with the numerically smallest index. The "
+           "library is Prolog text; the comparator behind its sort/2 is proved under C15. One known finding.",
+})
 FUNCTION_LEVEL = ("C11", "C13", "C14", "C18")
 FN_BOUNDED_TECH = ("run-time contract (pre/post-condition against an independent reference) on the real functions over a "
                    "bounded input family; the deductive contracts planned for these functions were not built, so nothing "
